@@ -273,7 +273,7 @@ def cases(rng, tier, worker, nworkers):
                 i += 1
                 if i % nworkers == worker:
                     yield _mk(kind, decl, [dict(o) for o in combo])
-    n_random = 1500 if tier == 'quick' else 40000 // nworkers
+    n_random = 1500 if tier == 'quick' else 200000 // nworkers
     for _ in range(n_random):
         yield _random_case(rng)
 
